@@ -162,6 +162,7 @@ def worker(ctx, prop):
                  loaded=bool(r.get('face')), rejected=not r.get('face'), seg=bool(r.get('seg')), seg_null=bool(r.get('face') and not r.get('seg')),
                  rule_fired=r.get('fired', 0) > 0, attached=st_.get('att', 0) > 0, attach_depth2=st_.get('depth', 0) >= 2, reordered=bool(st_.get('reord')),
                  length_changed=st_.get('n') != st_.get('nc'), illformed_text=any(isinstance(c, (list, tuple)) for c in case['text']), assoc_nontrivial=bool(st_.get('assoc')), late_assoc=r.get('late', 0) > 0,
+                 linebreak_passes=bool(case.get('spec', {}).get('ilb')) and bool(r.get('face')), only_linebreak_passes=bool(case.get('spec', {}).get('ilb')) and case['spec']['ilb'] >= case['spec'].get('nsubst', 99) and r.get('fired', 0) > 0,
                  long_text=len(case['text']) >= 512, loop_half_bound=any(p[0] * 2 > p[1] for p in r.get('passes', [])), growth_cap=st_.get('n', 0) > 32 * max(1, st_.get('nc', 1)))
 
     def make_wild(deco):
@@ -265,9 +266,11 @@ def replay_sweep(prop, case):
         if crash['kind'] == 'timeout' or 'HANG' in crash.get('stderr', ''):
             raise Violation('does-not-return', case, crash['stderr'][-800:])
         raise Violation('sanitizer:' + crash['kind'] + ':' + crash['summary'], case, crash['stderr'][-1500:])
-    for label in (res or {}).get('fails', {}):
-        if label.startswith(prop + ':'):
-            raise Violation(label[4:], case, '')
+    labels = [label[4:] for label in (res or {}).get('fails', {}) if label.startswith(prop + ':')]
+    if case.get('label') in labels:          # a corrupted font may fail several clauses at once: confirm the one that was reported
+        raise Violation(case['label'], case, '')
+    if labels:
+        raise Violation(labels[0], case, '')
 
 
 def sweep_shape(ctx, prop, tier, workers):
@@ -315,7 +318,7 @@ def sweep_shape(ctx, prop, tier, workers):
             for label, info in res['fails'].items():
                 p, l = label.split(':', 1)
                 if p == prop:
-                    report(Violation(l, dict(info['first'], kind='sweep', font=font, shape=arg), 'count=%d' % info['count']))
+                    report(Violation(l, dict(info['first'], kind='sweep', font=font, shape=arg, label=l), 'count=%d' % info['count']))
                 else:
                     m['other'][label] = m['other'].get(label, 0) + info['count']
     m['samples'].append(dict(engine='sweep+shape', font='corpus/synth/003.ttf', offset=412, value='0x7FFF', width=2, texts=sweep_texts(fs[1]) if len(fs) > 1 else None))
